@@ -42,7 +42,7 @@ SLY_FUNCS = (("Parser.parse", "sly.yacc.Parser.parse"), ("Lexer.tokenize", "sly.
 
 
 def families(facts):
-    fams = ["sly.defuse[Parser.parse]", "sly.defuse[Lexer.tokenize]", "sly.config", "hooks", "frame.globals", "init.instances"]
+    fams = ["sly.defuse[Parser.parse]", "sly.defuse[Lexer.tokenize]", "sly.config", "hooks", "frame.globals", "frame.fields", "init.instances"]
     fams += [f"frame.action[{r['name']}]" for r in facts.raw["lexer"]["rules"] if r.get("action")]
     fams += [f"frame.prod[{p['number']}]" for p in facts.raw["parser"]["productions"] if p.get("func")]
     return fams + ["bounded.hashseed", "bounded.histories", "canary"]
@@ -147,6 +147,22 @@ def run_family(facts, fam, tier):
                  "reason": f"stale read of self.state found at {bad[:2]}" if good else "canary NOT refuted"}]
     if fam == "frame.globals":
         return frame_globals(facts, t0)
+    if fam == "frame.fields":
+        # no instance field is both written (outside __init__) and read by repository members of the lexer / parser: nothing a
+        # callback leaves on the instance can reach a later call (the SLY driver reads only what it wrote in the same call)
+        W, R = field_traffic(facts)
+        star = "*" in W or "*" in R
+        live = sorted(set(W) | set(R)) if star and (W and R) else sorted(set(W) & set(R))
+        out = []
+        for f in live:
+            out.append(res(f"C20:odata_query.grammar:frame.fields[{f}]", "frame.fields", False, t0,
+                           f"instance field {f} is written or mutated by {sorted(set(W.get(f, W.get('*', []))))} and read by "
+                           f"{sorted(set(R.get(f, R.get('*', []))))}: a value left by one call can decide a later one",
+                           {"witness": {"field": f}}))
+        if not live:
+            out.append(res("C20:odata_query.grammar:frame.fields", "frame.fields", True, t0,
+                           f"fields written outside __init__: {sorted(W) or 'none'}; fields read: {sorted(R) or 'none'}; no field is both"))
+        return out
     if fam == "bounded.hashseed":
         return bounded_hashseed(facts, tier)
     if fam == "bounded.histories":
@@ -172,27 +188,43 @@ def run_family(facts, fam, tier):
 
 # ------------------------------------------------------------------------------------------
 def field_traffic(facts):
-    """instance fields that repository members of the lexer / parser classes write, and those they read
-    (self.X with X not a member of the class; a computed getattr/setattr name counts as every field)"""
+    """instance fields that repository members of the lexer / parser classes write or mutate outside __init__ (self.X = ...,
+    self.X[k] = ..., self.X.append(...), ...), and those they read (self.X with X not a member of the class); a computed
+    getattr/setattr name counts as every field"""
     W, R = {}, {}
+
+    def self_field(e):
+        """X if e is self.X or a subscript / attribute chain hanging off self.X"""
+        while isinstance(e, (pyast.Subscript, pyast.Attribute)):
+            if isinstance(e, pyast.Attribute) and isinstance(e.value, pyast.Name) and e.value.id == "self":
+                return e.attr
+            e = e.value
+        return None
     for cq, name, m in repo_class_members(facts):
         members = facts.classes[cq]["members"]
         try:
             tree = facts.fdef(m)
         except Exception:
             continue
+        who = f"{cq}.{name}"
         for n in pyast.walk(tree):
-            if isinstance(n, pyast.Attribute) and isinstance(n.value, pyast.Name) and n.value.id == "self":
-                if isinstance(n.ctx, (pyast.Store, pyast.Del)):
-                    W.setdefault(n.attr, []).append(f"{cq}.{name}")
-                elif n.attr not in members and not n.attr.startswith("__"):
-                    R.setdefault(n.attr, []).append(f"{cq}.{name}")
+            if isinstance(n, (pyast.Attribute, pyast.Subscript)) and isinstance(n.ctx, (pyast.Store, pyast.Del)):
+                f = self_field(n)
+                if f is not None and name != "__init__":
+                    W.setdefault(f, []).append(who)
+            if isinstance(n, pyast.Attribute) and isinstance(n.ctx, pyast.Load) and isinstance(n.value, pyast.Name) and n.value.id == "self":
+                if n.attr not in members and not n.attr.startswith("__") and name != "__init__":
+                    R.setdefault(n.attr, []).append(who)
+            if isinstance(n, pyast.Call) and isinstance(n.func, pyast.Attribute) and n.func.attr in MUTATORS:
+                f = self_field(n.func.value)
+                if f is not None and f not in members and name != "__init__":
+                    W.setdefault(f, []).append(who)
             if isinstance(n, pyast.Call) and isinstance(n.func, pyast.Name) and n.func.id in ("getattr", "hasattr", "setattr", "delattr") \
                     and n.args and isinstance(n.args[0], pyast.Name) and n.args[0].id == "self":
                 nm = n.args[1].value if len(n.args) > 1 and isinstance(n.args[1], pyast.Constant) else "*"
                 tgt = W if n.func.id in ("setattr", "delattr") else R
                 if nm == "*" or nm not in members:
-                    tgt.setdefault(nm, []).append(f"{cq}.{name}")
+                    tgt.setdefault(nm, []).append(who)
     return W, R
 
 
@@ -370,15 +402,18 @@ def init_instances(c, facts, timeout, t0):
                 fa = holder["self"].attrs.get("field_aliases")
 
                 def P(x):
-                    lx = "<call>(getattr(<lexer>(), 'tokenize'), %s)" if lexv is not None else "tokenize(Obj(ODataLexer, {}), %s)"
-                    pr = "<call>(getattr(<parser>(), 'parse'), %s)" if parv is not None else "parse(Obj(ODataParser, {}), %s)"
+                    lx = "<call>(getattr(<lexer>(), 'tokenize'), %s)" if lexv is not None else "tokenize(<fresh ODataLexer>, %s)"
+                    pr = "<call>(getattr(<parser>(), 'parse'), %s)" if parv is not None else "parse(<fresh ODataParser>, %s)"
                     return pr % (lx % x)
                 want = "<dictcomp>(<call>(getattr(<aliases>(), 'items')), %s, %s)" % (P("SStr(<term:k>)"), P("SStr(<term:v>)"))
-                ok = repr(rep) == want and repr(fa) == "<aliases>()"
+                import re as _re
+                # a fresh instance is a fresh instance whatever its constructor stores on it
+                got = _re.sub(r"Obj\((ODataLexer|ODataParser), \{[^{}]*(?:\{[^{}]*\}[^{}]*)*\}\)", r"<fresh \1>", repr(rep))
+                ok = got == want and repr(fa) == "<aliases>()"
                 out.append(res(name, "init.instances", ok, t0,
                                "replacements = {P(k): P(v)} with P = parse of the " + ("supplied" if parv is not None else "fresh") +
                                " parser over tokenize of the " + ("supplied" if lexv is not None else "fresh") + " lexer" if ok else
-                               f"replacements = {rep!r}; expected {want}", {"source": src_of(m), "path": i, "witness": {"case": case}},
+                               f"replacements = {got}; expected {want}", {"source": src_of(m), "path": i, "witness": {"case": case}},
                                backend="pyvc (term comparison)"))
     finally:
         E.ext_models.clear()
@@ -413,7 +448,8 @@ BATTERY = ["a eq 1", "a eq 1 and b ne 'x' or not (c lt 2)", "a in (1, 2, 3)", "x
            "contains(tolower(name), 'x') eq true", "a eq", "a eq 'unterminated", "length(a, b) eq 1", "nosuchfunc(a)", "a/b/c/d eq null",
            "-a add 3 mul (b sub 1) div 2 mod 5 ge 0", "d gt 2020-01-02T10:20:30Z", "x eq duration'P1DT2H'", "a eq 1 ? 2",
            "Name eq 1", "a eq Name", "matchesPattern(a, 'x')", "matchespattern(a, 'x')", "Geo.Length(x) gt 1", "geo.length(x) gt 1",
-           "a eq 1 and", "xs/all(x: x/Name eq Name)", "now() gt d", "now( ) gt d"]
+           "a eq 1 and", "xs/all(x: x/Name eq Name)", "now() gt d", "now( ) gt d",
+           "geo.distance(a, b) lt 5", "distance(a, b) lt 5", "geo.contains(a, 'x')", "contains(a, 'x')", "substring(a, 1)", "geo.substring(a, 1, 2, 3)"]
 
 
 def bounded_hashseed(facts, tier):
@@ -495,7 +531,7 @@ def replay_spec(facts, r):
     if r.get("bounded") and r.get("native_script"):
         return {"native_script": r["native_script"], "input_text": r.get("bound"), "required": "same result as fresh instances / same digest"}
     w = r.get("witness") or {}
-    if r.get("clause") in ("frame", "frame.globals", "frame.defuse", "frame.config", "post.raise", "own.fresh"):
+    if r.get("clause") in ("frame", "frame.fields", "frame.globals", "frame.defuse", "frame.config", "post.raise", "own.fresh"):
         # a frame violation shows as a history dependence: search shared-instance histories natively
         seed = int(os.environ.get("VERIF_SEED", "0") or 0)
         script = f"BATTERY = {BATTERY!r}\nSEED = {seed}\nCOUNT = 3000\n" + HISTORIES
